@@ -217,7 +217,11 @@ func (w *c17World) start() {
 	}
 	var reqXML []byte
 	var relay string
-	switch rec.Code {
+	code := rec.Code
+	if code == http.StatusSeeOther || code == http.StatusTemporaryRedirect {
+		code = http.StatusFound // any temporary redirect carries a redirect-binding request just as well
+	}
+	switch code {
 	case http.StatusFound:
 		loc, err := url.Parse(resp.Header.Get("Location"))
 		if err != nil {
@@ -393,7 +397,7 @@ func (w *c17World) deliver(d *c17Delivery) {
 			}
 			want = named.url
 		}
-		if rec.Code != http.StatusFound || resp.Header.Get("Location") != want {
+		if rec.Code < 300 || rec.Code > 399 || resp.Header.Get("Location") != want {
 			cls := "other"
 			if d.hasRS && resp.Header.Get("Location") == d.relay {
 				cls = "redirect-to-relay-state"
@@ -431,8 +435,8 @@ func (w *c17World) deliver(d *c17Delivery) {
 		}
 	} else {
 		// I5
-		if rec.Code != http.StatusForbidden {
-			w.violation("I5/refusal-status", fmt.Sprintf("delivery without session cookie answered with status %d, want 403", rec.Code), extra)
+		if rec.Code < 400 { // a refusal is an error reply (which one is the deployment's OnError business), not a page and not a redirect
+			w.violation("I5/refusal-status", fmt.Sprintf("delivery that established no session was answered with status %d instead of an error status", rec.Code), extra)
 			return
 		}
 		// I6: a faithful delivery inside all lifetimes must complete
